@@ -1,21 +1,27 @@
 #!/bin/bash
-# Build the hand-written Coq library (offline, from files on disk only). `--lib-only` = same, used by checks
-# to rebuild whatever is stale before they compile their per-run files.
-set -e
-cd "$(dirname "$0")/coq"
+# Build the hand-written Coq library (offline, from files on disk only).
+#   ./setup.sh                 build everything (keeps going past a failing file; fails if any file failed)
+#   ./setup.sh --targets "a.vo b.vo"   what a check runs first: rebuild just what that property needs, if stale
+cd "$(dirname "$0")/coq" || exit 1
 { echo "-Q . PW"; echo "-arg -w -arg -all"; find . -name '*.v' | sed 's|^\./||' | LC_ALL=C sort; } > _CoqProject.new
 if ! cmp -s _CoqProject.new _CoqProject || [ ! -f Makefile ]; then
   mv _CoqProject.new _CoqProject
-  coq_makefile -f _CoqProject -o Makefile > /dev/null
+  coq_makefile -f _CoqProject -o Makefile > /dev/null || exit 1
 else
   rm -f _CoqProject.new
 fi
-timeout 3000 make -j16 > .make.log 2>&1 || { tail -40 .make.log; exit 1; }
-if [ "$1" != "--lib-only" ]; then
-  cd ..
-  # jsonschema (for C19 only) from the offline wheelhouse into a /verif-local directory
-  if [ ! -d .deps/jsonschema ]; then
-    /venv/bin/pip install --no-index --find-links /opt/veriftools/wheels --target .deps jsonschema > .deps.log 2>&1 || true
-  fi
-  echo "setup ok"
+if [ "$1" = "--targets" ]; then
+  timeout 3000 make -j12 $2 > .make.$$.log 2>&1; rc=$?
+  [ $rc -ne 0 ] && tail -40 .make.$$.log
+  rm -f .make.$$.log
+  exit $rc
 fi
+timeout 3000 make -j16 -k > .make.log 2>&1; rc=$?
+[ $rc -ne 0 ] && { grep -B2 -A12 'Error' .make.log | head -80; }
+cd ..
+# jsonschema (for C19 only) from the offline wheelhouse into a /verif-local directory
+if [ ! -d .deps/jsonschema ]; then
+  /venv/bin/pip install --no-index --find-links /opt/veriftools/wheels --target .deps jsonschema > .deps.log 2>&1 || true
+fi
+[ $rc -eq 0 ] && echo "setup ok"
+exit $rc
